@@ -4,6 +4,7 @@ import (
 	"go/ast"
 	"go/token"
 	"go/types"
+	"sort"
 	"strings"
 
 	"verif/checker/fw"
@@ -24,6 +25,10 @@ func init() {
 			"two fields are treated as the same field only when name, alias, absence of selections, arguments and directives agree, and a selection is removed only on that verdict after its defer information was merged. " +
 			"It does not decide exec(norm(q)) == exec(q), validity preservation or idempotence (value level).",
 		Mutants: []Mutant{
+			{Name: "the variables mapper records only variables that are the whole argument value (reverts part of the F92 fix)", File: "v2/pkg/astnormalization/variables_mapping.go", Rule: "C03-R16", Key: "variablesMappingVisitor/container-kinds-descended",
+				Old: "\tcase ast.ValueKindList:\n\t\tfor _, ref := range v.operation.ListValues[value.Ref].Refs {\n\t\t\tv.collectVariables(v.operation.Value(ref))\n\t\t}\n", New: "\tcase ast.ValueKindList:\n"},
+			{Name: "generated variable names may collide with variables that keep their name (reverts part of the F92 fix)", File: "v2/pkg/astnormalization/variables_mapping.go", Rule: "C03-R16", Key: "variablesMappingVisitor.generateUnusedVariableMappingName/kept-names-consulted",
+				Old: "\t\t\tif !exists && !slices.Contains(v.keptNames, string(out)) {\n", New: "\t\t\tif !exists {\n"},
 			{Name: "a union fragment inside an overlapping union is not inlined (reverts the F81 fix)", File: "v2/pkg/astnormalization/fragment_spread_inlining.go", Rule: "C03-R15", Key: "spread-matrix/UnionTypeDefinition-in-UnionTypeDefinition",
 				Old: "fragmentUnionIntersectsEnclosingUnion = f.definition.UnionNodeIntersectsUnionNode(f.EnclosingTypeDefinition, fragmentNode)", New: "fragmentUnionIntersectsEnclosingUnion = false"},
 			{Name: "a variable without a value inside a list literal is rendered as null although it has a default (reverts part of the F68 fix)", File: "v2/pkg/ast/ast_value.go", Rule: "C03-R14", Key: "Document.writeJSONValue/absent-variable-takes-its-default",
@@ -97,6 +102,7 @@ func runC03(r *fw.Run) {
 	c03VariableDefinitionsLookedUpPerOperation(r)
 	c03AbsentNestedVariableTakesItsDefault(r)
 	c03InlinerCoversTheSpreadMatrix(r)
+	c03MapperSeesEveryUseAndEveryKeptName(r)
 
 	r.Rule("C03-R9", "normalization runs before validation: in astnormalization and package ast the ref of an ast.Value is handed to an accessor of kind K (doc.<K>Value…(v.Ref), doc.<K>Values[v.Ref]) only where v.Kind is known to be K (equality or switch clause on the same value, a boolean local defined from it, or every caller of an unexported helper); VariableDefinition.VariableValue is a variable by construction")
 	nKR := kindRefAgreement(r, "C03-R9", []string{"astnorm", "ast"}, nil)
@@ -1062,4 +1068,171 @@ func c03InlinerCoversTheSpreadMatrix(r *fw.Run) {
 			"the validator allows a fragment on a "+c.fragment+" inside a "+c.parent+" when "+c.helper+" holds; the inliner never calls it: such a spread is left in place, its fragment definition survives normalization, and the validator, which runs afterwards and takes any remaining spread for a cycle, rejects a valid operation (`query { search { ...M } } fragment M on Media { … }` with overlapping unions)")
 	}
 	r.Expect("C03-R15", "cells of the validator's spread-possibility matrix with an overlap helper", n, 6)
+}
+
+// c03MapperSeesEveryUseAndEveryKeptName (R16): variable canonicalisation renames the definition of a variable and the uses
+// it has recorded, and generates the new names. (a) A use that was not recorded keeps the old name while its definition is
+// renamed: the mapper's visitor recognises variable values and descends into list and object literals (directive
+// arguments are never extracted, so `@tag(names: [$x])` survives to this stage). (b) A definition that keeps its name (an
+// Upload variable, a variable without a recorded use) is invisible at the use sites: on every path to a non-nil return of
+// the name generator a condition has read a visitor field that some method fills from the operation's variable definition
+// list (values derived from a range over VariableDefinitionList.Refs; other receiver fields are opaque), or reads that
+// list itself.
+func c03MapperSeesEveryUseAndEveryKeptName(r *fw.Run) {
+	p := r.Prog
+	r.Rule("C03-R16", "the variables mapper finds variable uses at every depth of an argument value (arms for Variable, List, Object; the container arms descend), and its name generator returns a name only after a condition read a visitor field filled from the operation's variable definition list")
+	ctor := p.Func("astnorm", "remapVariables")
+	if ctor == nil {
+		r.Error("C03-R16: remapVariables not found")
+		return
+	}
+	cinfo := ctor.Info()
+	var vt string
+	var vtNamed *types.Named
+	fw.WalkAll(ctor.Decl.Body, func(nd ast.Node) bool {
+		if cl, ok := nd.(*ast.CompositeLit); ok {
+			if n, isNamed := cinfo.TypeOf(cl).(*types.Named); isNamed && n.Obj().Pkg() == ctor.Obj.Pkg() {
+				vt, vtNamed = n.Obj().Name(), n
+			}
+		}
+		return true
+	})
+	if vt == "" {
+		r.Error("C03-R16: the visitor type built by remapVariables was not found")
+		return
+	}
+	covered, descends := valueKindArmsOfVisitor(p, "astnorm", vt)
+	r.Check(covered["ValueKindVariable"], "C03-R16", vt+"/variable-arm", p.Pos(ctor.Decl.Pos()), "the variables mapper has an arm for variable values", "no arm for ValueKindVariable was found in "+vt)
+	r.Check(descends["ValueKindList"] && descends["ValueKindObject"], "C03-R16", vt+"/container-kinds-descended", p.Pos(ctor.Decl.Pos()), "the variables mapper descends into list and object literals",
+		vt+" does not descend into both container kinds (List, Object): `query Q($x: String){ a @tag(names: [$x]) echo(s: $x) }` is canonicalised to `query Q($a: String){a @tag(names: [$x]) echo(s: $a)}` — the definition and the direct use are renamed, the nested use keeps the old name and the operation is no longer valid (`variable \"$x\" is not defined`)")
+	// (b) fields of the visitor filled from the variable definition list
+	isRefsOfDefinitionList := func(info *types.Info, e ast.Expr) bool {
+		v, sel := fw.Field(info, e)
+		if v == nil || v.Name() != "Refs" {
+			return false
+		}
+		_, tn := fw.FieldOwner(info, sel)
+		return tn == "VariableDefinitionList"
+	}
+	filled := map[*types.Var]bool{}
+	var methods []*fw.FuncInfo
+	for _, fi := range p.Funcs("astnorm") {
+		if fw.RecvNameOfFunc(fi.Obj) == vt {
+			methods = append(methods, fi)
+		}
+	}
+	isRecvField := func(fi *fw.FuncInfo, e ast.Expr) (*types.Var, bool) {
+		sel, ok := ast.Unparen(e).(*ast.SelectorExpr)
+		if !ok {
+			return nil, false
+		}
+		id, ok := ast.Unparen(sel.X).(*ast.Ident)
+		if !ok || fi.Decl.Recv == nil || len(fi.Decl.Recv.List) == 0 || len(fi.Decl.Recv.List[0].Names) == 0 {
+			return nil, false
+		}
+		info := fi.Info()
+		if info.ObjectOf(id) != info.ObjectOf(fi.Decl.Recv.List[0].Names[0]) {
+			return nil, false
+		}
+		v, _ := fw.Field(info, sel)
+		return v, v != nil
+	}
+	for _, fi := range methods {
+		info := fi.Info()
+		d := fw.NewPureDeriver(fi)
+		d.Barrier = func(e ast.Expr) bool {
+			if isRefsOfDefinitionList(info, e) {
+				return false
+			}
+			if id, isID := e.(*ast.Ident); isID && fi.Decl.Recv != nil && len(fi.Decl.Recv.List) > 0 && len(fi.Decl.Recv.List[0].Names) > 0 &&
+				info.ObjectOf(id) == info.ObjectOf(fi.Decl.Recv.List[0].Names[0]) {
+				return true // the receiver as a whole is opaque: only what is computed from the definition list counts
+			}
+			_, is := isRecvField(fi, e)
+			return is
+		}
+		src := func(e ast.Expr) bool { return isRefsOfDefinitionList(info, e) }
+		fw.WalkAll(fi.Decl.Body, func(nd ast.Node) bool {
+			as, ok := nd.(*ast.AssignStmt)
+			if !ok {
+				return true
+			}
+			for i, l := range as.Lhs {
+				target := l
+				if ix, isIx := ast.Unparen(l).(*ast.IndexExpr); isIx {
+					target = ix.X
+				}
+				fv, is := isRecvField(fi, target)
+				if !is {
+					continue
+				}
+				rhs := as.Rhs[0]
+				if len(as.Rhs) == len(as.Lhs) {
+					rhs = as.Rhs[i]
+				}
+				derived := d.Derives(rhs, src)
+				if ix, isIx := ast.Unparen(l).(*ast.IndexExpr); isIx && d.Derives(ix.Index, src) {
+					derived = true
+				}
+				if derived {
+					filled[fv] = true
+				}
+			}
+			return true
+		})
+	}
+	_ = vtNamed
+	nGen := 0
+	for _, fi := range methods {
+		sig := fi.Obj.Type().(*types.Signature)
+		if sig.Params().Len() != 0 || sig.Results().Len() != 1 {
+			continue
+		}
+		if sl, ok := sig.Results().At(0).Type().Underlying().(*types.Slice); !ok || !types.Identical(sl.Elem(), types.Typ[types.Byte]) {
+			continue
+		}
+		nGen++
+		info := fi.Info()
+		ok := true
+		var at token.Pos = fi.Decl.Pos()
+		in := fw.NewInterp(fi)
+		in.H = fw.Hooks{
+			Lit: func(l *ast.FuncLit, ctx fw.LitCtx, st *fw.State) fw.LitMode { return fw.LitSkip },
+			Cond: func(e ast.Expr, branch bool, st *fw.State) {
+				fw.WalkAll(e, func(nd ast.Node) bool {
+					if x, isE := nd.(ast.Expr); isE {
+						if fv, is := isRecvField(fi, x); is && filled[fv] {
+							st.Set("kept-names-consulted")
+						}
+						if isRefsOfDefinitionList(info, x) {
+							st.Set("kept-names-consulted")
+						}
+					}
+					return true
+				})
+			},
+			Exit: func(ret *ast.ReturnStmt, lit *ast.FuncLit, st *fw.State) {
+				if lit != nil || !in.Final() || ret == nil || len(ret.Results) != 1 {
+					return
+				}
+				if tv, isT := info.Types[ret.Results[0]]; isT && tv.IsNil() {
+					return
+				}
+				if !st.Must("kept-names-consulted") {
+					ok = false
+					at = ret.Pos()
+				}
+			},
+		}
+		in.Run(nil)
+		r.Check(ok, "C03-R16", fi.Name()+"/kept-names-consulted", p.Pos(at), fi.Name()+" returns a name only after a condition read what the operation's variable definitions say",
+			fi.Name()+" returns a generated name on a path on which no condition read a visitor field filled from the operation's variable definition list: the names already handed out are avoided, the names of definitions that keep theirs are not — `mutation Q($a: Upload, $title: String){ upload(file: $a, title: $title) }` becomes `mutation Q($a: Upload, $a: String){upload(file: $a, title: $a)}`: two definitions called `a`, and `title` now reads the upload variable")
+	}
+	r.Expect("C03-R16", "name generators of the variables mapper", nGen, 1)
+	var names []string
+	for fv := range filled {
+		names = append(names, fv.Name())
+	}
+	sort.Strings(names)
+	r.Note("C03-R16: visitor fields filled from the variable definition list: %v", names)
 }
